@@ -136,6 +136,7 @@ func (k Keeper) HandlerResponse(
 			"body", outputBody,
 			"err", err.Error(),
 		)
+		k.DeleteOracleRandRequest(ctx, requestContextID)
 		return
 	}
 
